@@ -191,6 +191,45 @@ fn handle(v: &Value) -> Value {
             let _ = std::fs::remove_dir_all(&root);
             json!({ "ok": finals })
         }
+        "relay" => {
+            // a SEQUENTIAL history of exports into one file whose steps are carried out by different (persistent) threads:
+            // step i runs on worker `assign[i]` and is finished before step i + 1 starts (anything a thread remembers between
+            // its own steps is wrong as soon as another thread has written in between)
+            let root = s(v, "root").to_owned();
+            let gens: Vec<(String, String)> = v.get("gens").and_then(Value::as_array).expect("gens").iter()
+                .map(|g| (s(g, "name").to_owned(), s(g, "text").to_owned())).collect();
+            let assign: Vec<usize> = v.get("assign").and_then(Value::as_array).expect("assign").iter().map(|x| x.as_u64().unwrap() as usize).collect();
+            let _ = std::fs::remove_dir_all(&root);
+            std::fs::create_dir_all(&root).expect("mk root");
+            verif::registry_reset();
+            let path = PathBuf::from(&root).join("shared.ts");
+            let nthreads = assign.iter().copied().max().unwrap_or(0) + 1;
+            let mut txs = Vec::new();
+            let (rtx, rrx) = std::sync::mpsc::channel::<bool>();
+            let mut hs = Vec::new();
+            for _ in 0..nthreads {
+                let (tx, rx) = std::sync::mpsc::channel::<(PathBuf, String, String)>();
+                let rtx = rtx.clone();
+                txs.push(tx);
+                hs.push(std::thread::spawn(move || {
+                    for (p, name, text) in rx {
+                        let ok = catch_unwind(AssertUnwindSafe(|| verif::export_and_merge(p, name, text).is_ok())).unwrap_or(false);
+                        let _ = rtx.send(ok);
+                    }
+                }));
+            }
+            let mut oks = Vec::new();
+            for (i, (name, text)) in gens.iter().cloned().enumerate() {
+                let t = assign[i % assign.len()];
+                txs[t].send((path.clone(), name, text)).expect("send");
+                oks.push(rrx.recv().unwrap_or(false));
+            }
+            drop(txs);
+            for h in hs { let _ = h.join(); }
+            let content = std::fs::read_to_string(&path).unwrap_or_default();
+            let _ = std::fs::remove_dir_all(&root);
+            json!({ "ok": { "steps": oks, "file": content } })
+        }
         "consts" => json!({ "ok": { "NOTE": verif::NOTE, "DECLARATION_START": verif::DECLARATION_START,
                                     "esm": cfg!(feature = "import-esm"),
                                     "default_out_dir": lossy(verif::default_out_dir()) } }),
